@@ -5,21 +5,21 @@ package jsonrpc
 // Contracts for contract-based deductive verification (checked by /verif/tool, see /verif/DESIGN.md).
 // This file contains comments only; it is compiled only with the build tag `verif` and adds no code.
 
-//@ property C10 units: websocketClient, normalizeID, (*wsConn).cancelCtx, (*wsConn).handleChanMessage, (*wsConn).handleChanClose, (*wsConn).handleResponse, (*wsConn).handleFrame, (*wsConn).frameExecutor, (*wsConn).handleCall, (*wsConn).readFrame, (*wsConn).nextMessage, (*handler).handleReader, (*handler).handle, rpcError, (*handler).createError, (response).MarshalJSON, (*handler).getSpan, (*JSONRPCError).val, (*rpcFunc).processResponse, (*client).makeOutChan$1$2
-//@ property C09 units: (*handler).handleReader, (*handler).handle, (*handler).handle$1, rpcError, rpcError$1, (response).MarshalJSON, normalizeID, withLazyWriter, (*wsConn).handleCall, (*wsConn).handleOutChans$1
-//@ property C12 units: makeHandler, (*handler).register, (*handler).handle, processFuncOut, (*client).makeRpcFunc, NewMethodNameFormatter$1, (*RPCServer).AliasMethod, WithClientHandlerAlias$1
-//@ property C14 units: (*wsConn).nextWriter, (*wsConn).sendRequest, (*wsConn).setupPings, (*wsConn).setupPings$4, (*wsConn).handleWsConn, (*wsConn).tryReconnect, (*wsConn).tryReconnect$1, (*wsConn).handleOutChans, (*wsConn).handleCtxAsync, (*wsConn).nextMessage, (*wsConn).handleResponse, (*wsConn).handleCall, (*wsConn).handleCall$3, (*wsConn).cancelCtx, (*wsConn).handleChanMessage, (*wsConn).handleChanClose, (*wsConn).closeInFlight, (*wsConn).closeChans, (*wsConn).readFrame, (*wsConn).resetReadDeadline, withLazyWriter, (*lazyWriter).Write, (*lazyWriter).Write$1$1
-//@ property C05 units: WithErrors$1, NewErrors, (*JSONRPCError).val, (*backoff).next, (*wsConn).tryReconnect, (*wsConn).tryReconnect$1, (*wsConn).handleWsConn, websocketClient, (*rpcFunc).handleRpcCall
-//@ property C03 units: (*wsConn).resetReadDeadline, (*wsConn).handleWsConn, (*wsConn).tryReconnect, (*wsConn).tryReconnect$1, (*wsConn).closeInFlight, (*wsConn).nextMessage, (*wsConn).readFrame, (*client).setupRequestChan$1
+//@ property C10 units: WithMaxRequestSize$1, NewServer, (*RPCServer).HandleRequest, websocketClient, normalizeID, (*wsConn).cancelCtx, (*wsConn).handleChanMessage, (*wsConn).handleChanClose, (*wsConn).handleResponse, (*wsConn).handleFrame, (*wsConn).frameExecutor, (*wsConn).handleCall, (*wsConn).readFrame, (*wsConn).nextMessage, (*handler).handleReader, (*handler).handle, rpcError, (*handler).createError, (response).MarshalJSON, (*handler).getSpan, (*JSONRPCError).val, (*rpcFunc).processResponse, (*client).makeOutChan$1$2
+//@ property C09 units: (*handler).handleReader$1, (*handler).handleReader$2, (*wsConn).handleCall$1, (*RPCServer).HandleRequest, (*handler).handleReader, (*handler).handle, (*handler).handle$1, rpcError, rpcError$1, (response).MarshalJSON, normalizeID, withLazyWriter, (*wsConn).handleCall, (*wsConn).handleOutChans$1
+//@ property C12 units: WithMethodNameFormatter$1, WithServerMethodNameFormatter$1, NewServer, (*RPCServer).Register, NewMergeClient, makeHandler, (*handler).register, (*handler).handle, processFuncOut, (*client).makeRpcFunc, NewMethodNameFormatter$1, (*RPCServer).AliasMethod, WithClientHandlerAlias$1
+//@ property C14 units: (*wsConn).setupPings$1, (*wsConn).setupPings$2, (*wsConn).setupPings$5$1, (*deadlineResetReader).Read, (*wsConn).nextWriter, (*wsConn).sendRequest, (*wsConn).setupPings, (*wsConn).setupPings$4, (*wsConn).handleWsConn, (*wsConn).tryReconnect, (*wsConn).tryReconnect$1, (*wsConn).handleOutChans, (*wsConn).handleCtxAsync, (*wsConn).nextMessage, (*wsConn).handleResponse, (*wsConn).handleCall, (*wsConn).handleCall$3, (*wsConn).cancelCtx, (*wsConn).handleChanMessage, (*wsConn).handleChanClose, (*wsConn).closeInFlight, (*wsConn).closeChans, (*wsConn).readFrame, (*wsConn).resetReadDeadline, withLazyWriter, (*lazyWriter).Write, (*lazyWriter).Write$1$1
+//@ property C05 units: WithReconnectBackoff$1, WithNoReconnect$1, websocketClient$1, (*RPCConnectionError).Error, (*RPCConnectionError).Unwrap, WithErrors$1, NewErrors, (*JSONRPCError).val, (*backoff).next, (*wsConn).tryReconnect, (*wsConn).tryReconnect$1, (*wsConn).handleWsConn, websocketClient, (*rpcFunc).handleRpcCall
+//@ property C03 units: websocketClient$3, (*client).setupRequestChan, (*deadlineResetReader).Read, (*wsConn).resetReadDeadline, (*wsConn).handleWsConn, (*wsConn).tryReconnect, (*wsConn).tryReconnect$1, (*wsConn).closeInFlight, (*wsConn).nextMessage, (*wsConn).readFrame, (*client).setupRequestChan$1
 //@ property C02 units: (*rpcFunc).handleRpcCall, normalizeID, (*client).makeRpcFunc, (*client).setupRequestChan$1, httpClient$1, NewCustomClient$1, (*wsConn).handleWsConn, (*wsConn).handleResponse, (*wsConn).closeInFlight, (*wsConn).frameExecutor, (*wsConn).handleFrame, (*wsConn).handleCall, (*handler).handle, rpcError$1
 //@ property C04 units: (*rpcFunc).handleRpcCall, (*client).makeRpcFunc, (*client).provide, httpClient$1, (*wsConn).handleWsConn, (*wsConn).frameExecutor, (*wsConn).handleFrame, (*wsConn).handleCall, (*handler).handle, (*wsConn).closeInFlight, (*wsConn).closeChans, (*wsConn).tryReconnect, (*wsConn).tryReconnect$1
 //@ property C06 units: (*client).setupRequestChan$1, (*wsConn).handleCtxAsync, (*wsConn).handleResponse, (*wsConn).cancelCtx, (*wsConn).handleCall, (*wsConn).handleCall$2, (*wsConn).handleCall$3, (*handler).handle, (*wsConn).closeInFlight, (*RPCServer).ServeHTTP, (*handler).handleReader, httpClient$1, (*wsConn).handleFrame
-//@ property C15 units: (*wsConn).handleWsConn, (*wsConn).handleCall, (*wsConn).closeInFlight, (*wsConn).nextWriter, (*wsConn).readFrame, (*wsConn).frameExecutor, (*client).sendRequest, (*client).setupRequestChan$1, (*wsConn).handleOutChans, (*wsConn).handleChanOut, withLazyWriter, (*lazyWriter).Write, (*lazyWriter).Write$1$1, (*RPCServer).handleWS
-//@ property C16 units: WithReverseClient$1$1, ExtractReverseClient, (*RPCServer).handleWS, (*RPCServer).ServeHTTP, (*client).setupRequestChan$1, (*wsConn).handleChanOut, websocketClient, WithClientHandlerAlias$1, (*wsConn).closeInFlight, (*wsConn).handleWsConn
-//@ property C07 units: (*wsConn).handleOutChans, (*wsConn).handleOutChans$1, (*wsConn).handleChanOut, (*handler).handle, (*wsConn).handleResponse, (*wsConn).handleChanMessage, (*client).makeOutChan$1$1, (*client).makeOutChan$1$2, (*wsConn).handleFrame
-//@ property C08 units: (*wsConn).handleChanOut, (*wsConn).handleOutChans, (*wsConn).handleChanClose, (*wsConn).closeChans, (*wsConn).handleChanMessage, (*wsConn).tryReconnect, (*wsConn).handleWsConn, (*client).makeOutChan$1$1, (*client).makeOutChan$1$2, (*wsConn).handleResponse
-//@ property C11 units: WithErrors$1, WithServerErrors$1, (*client).setupRequestChan$1, (*handler).createError, (*Errors).Register, NewErrors, (*JSONRPCError).val, (*JSONRPCError).Error, (*rpcFunc).processResponse, (*rpcFunc).processError, (*handler).handle, (response).MarshalJSON, processFuncOut, (*wsConn).handleResponse
-//@ property C01 units: defaultConfig, defaultServerConfig, processFuncOut, (*param).MarshalJSON, (*param).UnmarshalJSON, (*client).makeRpcFunc, (*client).provide, (*rpcFunc).handleRpcCall, (*rpcFunc).processResponse, (*rpcFunc).processError, (*client).sendRequest, NewCustomClient$1, httpClient$1, (*client).setupRequestChan$1, (*handler).register, (*handler).handle, doCall, (response).MarshalJSON, (*wsConn).handleResponse, (*wsConn).handleCall, NewMethodNameFormatter$1, (*RPCServer).AliasMethod
+//@ property C15 units: (*handler).handleReader$1, (*wsConn).handleCall$1, (*lazyWriter).Write$1, websocketClient$2$1, (*RPCServer).handleWS$1, (*wsConn).handleWsConn, (*wsConn).handleCall, (*wsConn).closeInFlight, (*wsConn).nextWriter, (*wsConn).readFrame, (*wsConn).frameExecutor, (*client).sendRequest, (*client).setupRequestChan$1, (*wsConn).handleOutChans, (*wsConn).handleChanOut, withLazyWriter, (*lazyWriter).Write, (*lazyWriter).Write$1$1, (*RPCServer).handleWS
+//@ property C16 units: WithClientHandler$1, websocketClient$2$1, WithReverseClient$1$1, ExtractReverseClient, (*RPCServer).handleWS, (*RPCServer).ServeHTTP, (*client).setupRequestChan$1, (*wsConn).handleChanOut, websocketClient, WithClientHandlerAlias$1, (*wsConn).closeInFlight, (*wsConn).handleWsConn
+//@ property C07 units: (*client).makeOutChan$1, (*client).setupRequestChan, (*wsConn).handleOutChans, (*wsConn).handleOutChans$1, (*wsConn).handleChanOut, (*handler).handle, (*wsConn).handleResponse, (*wsConn).handleChanMessage, (*client).makeOutChan$1$1, (*client).makeOutChan$1$2, (*wsConn).handleFrame
+//@ property C08 units: (*client).makeOutChan$1, (*wsConn).setupPings$5$1, (*wsConn).handleChanOut, (*wsConn).handleOutChans, (*wsConn).handleChanClose, (*wsConn).closeChans, (*wsConn).handleChanMessage, (*wsConn).tryReconnect, (*wsConn).handleWsConn, (*client).makeOutChan$1$1, (*client).makeOutChan$1$2, (*wsConn).handleResponse
+//@ property C11 units: (*ErrClient).Error, (*ErrClient).Unwrap, WithErrors$1, WithServerErrors$1, (*client).setupRequestChan$1, (*handler).createError, (*Errors).Register, NewErrors, (*JSONRPCError).val, (*JSONRPCError).Error, (*rpcFunc).processResponse, (*rpcFunc).processError, (*handler).handle, (response).MarshalJSON, processFuncOut, (*wsConn).handleResponse
+//@ property C01 units: WithParamEncoder$1, WithParamDecoder$1, DecodeParams, NewCustomClient, httpClient, (*deadlineResetReader).Read, defaultConfig, defaultServerConfig, processFuncOut, (*param).MarshalJSON, (*param).UnmarshalJSON, (*client).makeRpcFunc, (*client).provide, (*rpcFunc).handleRpcCall, (*rpcFunc).processResponse, (*rpcFunc).processError, (*client).sendRequest, NewCustomClient$1, httpClient$1, (*client).setupRequestChan$1, (*handler).register, (*handler).handle, doCall, (response).MarshalJSON, (*wsConn).handleResponse, (*wsConn).handleCall, NewMethodNameFormatter$1, (*RPCServer).AliasMethod
 //@ property C13 units: doCall, (*handler).handle, rpcError$1
 
 //@ -- ------------------------------------------------------------------ shared vocabulary
@@ -770,3 +770,138 @@ package jsonrpc
 //@ func defaultServerConfig
 //@   ensures every-server-gets-its-own-option-maps: isfresh(result.paramDecoders) [C01,C12]
 //@   ensures starts-without-custom-decoders: result.paramDecoders != nil && (forall t: U :: !present(result.paramDecoders, t)) [C01,C12,C10]
+
+//@ -- ------------------------------------------------------------------ options, constructors and small closures (configuration reaches the mechanisms unchanged)
+//@ func WithMaxRequestSize$1
+//@   nosafety
+//@   at store ServerConfig.maxRequestSize: assert limit-is-the-configured-value: $val == max [C10]
+
+//@ func WithReconnectBackoff$1
+//@   at store Config.reconnectBackoff: assert backoff-is-the-configured-pair: $val.minDelay == minDelay && $val.maxDelay == maxDelay [C05]
+
+//@ func WithNoReconnect$1
+//@   at store Config.noReconnect: assert option-disables-reconnect: $val [C05]
+
+//@ func WithMethodNameFormatter$1
+//@   at store Config.methodNamer: assert client-uses-the-given-formatter: $val == namer [C12]
+
+//@ func WithServerMethodNameFormatter$1
+//@   at store ServerConfig.methodNameFormatter: assert server-uses-the-given-formatter: $val == formatter [C12]
+
+//@ func WithParamEncoder$1
+//@   may_panic
+//@   at mapset Config.paramEncoders: assert encoder-keyed-by-the-parameter-type: $val == encoder [C01]
+
+//@ func WithParamDecoder$1
+//@   may_panic
+//@   at mapset ServerConfig.paramDecoders: assert decoder-keyed-by-the-parameter-type: $val == decoder [C01]
+
+//@ func WithClientHandler$1
+//@   at store Config.reverseHandlers: assert appends-this-handler: len($val) == len(old(c.reverseHandlers)) + 1 [C16]
+
+//@ func NewServer
+//@   may_panic
+//@   nosafety
+//@   at call makeHandler: assert handler-built-from-the-final-configuration: $0 == config [C10,C12]
+//@   at store RPCServer.reverseClientBuilder: assert reverse-builder-from-configuration: $val == config.reverseClientBuilder [C16]
+//@   at store RPCServer.pingInterval: assert ping-interval-from-configuration: $val == config.pingInterval [C12,C10]
+
+//@ func (*RPCServer).HandleRequest
+//@   nosafety
+//@   requires server-tables-wellformed: s.handler != nil && handlersOK(s.handler)
+//@   at call handleReader: assert plain-requests-use-the-standard-error-writer: $1 == ctx && $2 == r && $3 == w && isfn($4, "rpcError") [C09,C10]
+
+//@ func (*RPCServer).Register
+//@   may_panic
+//@   requires server-tables-wellformed: s.handler != nil && handlersOK(s.handler) && s.handler.methodNameFormatter != nil
+//@   at call register: assert registers-under-the-given-namespace: $1 == namespace && $2 == handler [C12]
+
+//@ func NewMergeClient
+//@   may_panic
+//@   at call websocketClient: assert ws-client-gets-the-configured-options: $1 == addr && $2 == namespace && $3 == outs && $5 == config [C12,C01]
+//@   at call httpClient: assert http-client-gets-the-configured-options: $1 == addr && $2 == namespace && $3 == outs && $5 == config [C12,C01]
+
+//@ func NewCustomClient
+//@   may_panic
+//@   at store client.methodNameFormatter: assert uses-configured-formatter: $val == config.methodNamer [C12,C01]
+//@   at store client.paramEncoders: assert uses-configured-encoders: $val == config.paramEncoders [C01]
+//@   at store client.errors: assert uses-configured-error-table: $val == config.errors [C11,C01]
+//@   at store client.doRequest: assert installs-the-custom-transport: isfn($val, "NewCustomClient$1") [C01]
+
+//@ func httpClient
+//@   may_panic
+//@   at store client.methodNameFormatter: assert uses-configured-formatter: $val == config.methodNamer [C12,C01]
+//@   at store client.paramEncoders: assert uses-configured-encoders: $val == config.paramEncoders [C01]
+//@   at store client.errors: assert uses-configured-error-table: $val == config.errors [C11,C01]
+//@   at store client.doRequest: assert installs-the-http-transport: isfn($val, "httpClient$1") [C01]
+
+//@ func DecodeParams
+//@   at call encoding/json.Unmarshal: assert decodes-the-raw-params-verbatim: len($0) == len(p) && $0.base == p.base [C01]
+
+//@ func (*deadlineResetReader).Read
+//@   ghost rn : Int = 0
+//@   ghost rerr : U = nil
+//@   at call (io.Reader).Read: assert reads-into-the-callers-buffer-once: $1 == p && calls(Read) == 0 [C01,C14,C03]
+//@   at ret (io.Reader).Read: set rn = $result0
+//@   at ret (io.Reader).Read: set rerr = $result1
+//@   ensures frame-bytes-pass-through-unchanged: result0 == rn && result1 == rerr [C01,C14,C03]
+
+//@ func (*handler).handleReader$1
+//@   requires cb != nil
+//@   at dyncall cb: assert hands-out-the-reply-writer: $0 == w [C09]
+//@   ensures callback-exactly-once: calls(cb) == 1 [C09,C15]
+
+//@ func (*handler).handleReader$2
+//@   requires cb != nil
+//@   ensures callback-exactly-once: calls(cb) == 1 [C09,C15]
+
+//@ func (*wsConn).handleCall$1
+//@   requires cb != nil
+//@   ensures callback-exactly-once: calls(cb) == 1 [C09,C15]
+
+//@ func (*lazyWriter).Write$1
+//@   ensures asks-the-provider-once: calls(withWriterFunc) == 1 [C15,C14]
+
+//@ func websocketClient$1
+//@   ensures dial-failure-is-a-typed-connection-error: result1 != nil ==> istype(result1, #*RPCConnectionError) && result0 == nil [C05]
+
+//@ func websocketClient$2$1
+//@   at call handleWsConn: assert connection-loop-runs-under-the-labelled-client-context: $0 == wconn && $1 == ctx [C16,C15]
+
+//@ func websocketClient$3
+//@   at close stop: assert closer-signals-stop-first: true [C03,C18]
+//@   at recv exiting: assert closer-waits-for-the-loop-to-finish: calls(close) >= 0 [C03,C18]
+
+//@ func (*RPCServer).handleWS$1
+//@   at call handleWsConn: assert connection-loop-runs-under-the-labelled-context: $0 == wc && $1 == ctx [C15,C16]
+
+//@ func (*client).makeOutChan$1
+//@   may_panic
+//@   at makechan: assert sink-input-buffered: chancap($chan) == 32 [C07]
+//@   at go makeOutChan$1$1: assert buffer-goroutine-started-before-sink-is-handed-out: true [C07,C08]
+//@   ensures sink-and-context: result1 != nil && result0 == ctx [C07,C08,C06]
+
+//@ func (*client).setupRequestChan
+//@   at makechan: assert request-queue-unbuffered: chancap($chan) == 0 [C03,C02]
+//@   at store client.doRequest: assert installs-the-websocket-transport: isfn($val, "(*client).setupRequestChan$1") [C01,C02]
+
+//@ func (*wsConn).setupPings$1
+
+//@ func (*wsConn).setupPings$2
+
+//@ func (*wsConn).setupPings$5$1
+//@   at close stop: assert stops-the-ping-loop: true [C14,C08]
+
+//@ func (*ErrClient).Error
+//@   modifies nothing
+
+//@ func (*ErrClient).Unwrap
+//@   modifies nothing
+//@   ensures unwraps-the-transport-error: result == e.err [C11]
+
+//@ func (*RPCConnectionError).Error
+//@   modifies nothing
+
+//@ func (*RPCConnectionError).Unwrap
+//@   modifies nothing
+//@   ensures unwraps-the-dial-error-when-present: e.err != nil ==> result == e.err [C05]
